@@ -1,6 +1,7 @@
 CONSTANTS
   Depth = 3
   Wide = FALSE
+  Thin = 3
   Export = TRUE
 SPECIFICATION Spec
 INVARIANT TypeOK
